@@ -84,7 +84,8 @@ def genKeys (n : Nat) : Gen (List Bytes) := do
     if i == 0 && withEmpty then ks := ks.push []
     else
       let pre ← (do if ← Gen.prob 1 40 then genText 90 else genText 3)
-      ks := ks.push ((pre ++ decimalBytes i).take 300)
+      -- at most 300 bytes, and the uniqueness suffix is never cut off (review C06: a long prefix used to push it out)
+      ks := ks.push (pre.take (300 - (decimalBytes i).length) ++ decimalBytes i)
   return ks.toList.mergeSort fun a b => keyLt a b || a == b
 
 def strideSizes : List Nat := [0, 1, 2, 15, 16, 17, 31, 32, 33, 63, 64, 65, 200]
@@ -94,7 +95,14 @@ def genScalar : Gen Json := do
   | 0 => return .null
   | 1 => return .bool true
   | 2 => return .bool false
-  | 3 | 4 => return .num (← genNumeric) (← Gen.prob 1 4)
+  | 3 | 4 =>
+    -- PostgreSQL's jsonb never holds NaN / ±Infinity (they are not JSON numbers); the Spec admits them, so they are
+    -- generated, but rarely (1 in 40 numbers instead of 1 in 8)
+    let n ← genNumeric
+    let n ← match n with
+      | .fin .. => pure n
+      | _ => if ← Gen.prob 1 5 then pure n else pure (Numeric.fin (← Gen.bool) 0 2 [← Gen.range 1 9999, ← Gen.below 10000])
+    return .num n (← Gen.prob 1 4)
   | _ => return .str (← genString)
 
 /-- a document; `depth` = container levels still allowed, `size` scales container sizes -/
